@@ -160,6 +160,24 @@ impl ConnectionState {
             }
         };
 
+        // While the content of a delivery, a returned message or the answer to a get is
+        // still arriving on a channel, the only method the server may send on that channel
+        // is its close; any other method in between is a framing error.
+        if let AMQPFrame::Method(n, class) = &frame {
+            let is_close = match class {
+                AMQPClass::Channel(AmqpChannel::Close(_))
+                | AMQPClass::Channel(AmqpChannel::CloseOk(_)) => true,
+                _ => false,
+            };
+            if *n != 0 && !is_close {
+                if let Some(slot) = inner.chan_slots.get(*n) {
+                    if slot.collector.is_collecting() {
+                        return FrameUnexpectedSnafu.fail();
+                    }
+                }
+            }
+        }
+
         match frame {
             // Server-sent heartbeat
             AMQPFrame::Heartbeat(0) => {
